@@ -13,7 +13,7 @@ import ast
 from ..core import AnalysisError
 from ..cfg import CFG
 from ..flow import Defs, deps
-from ..pyfront import dotted, call_name, kwarg, params, src, walk_no_nested, const, inline_locals
+from ..pyfront import dotted, call_name, kwarg, params, src, walk_no_nested, const, inline_locals, local_defs
 
 EXPLANATION = (
     "Dependence-set analysis of the cell conversion functions (which inputs each output depends on is semantic: it "
@@ -23,7 +23,7 @@ EXPLANATION = (
     "small degree/radian unit inference over the trigonometric calls.")
 NOT_DECIDED = ["numerical agreement of vectors with lengths/angles, near-degenerate cells", "positive volume for valid angle triples (numerical)"]
 ASSUMPTIONS = ["numpy trigonometric functions take radians"]
-FLOORS = {"C17-R1": 20, "C17-R2": 3, "C17-R3": 8, "C17-R4": 20, "C17-R5": 12, "C17-R6": 4, "C17-R7": 19}
+FLOORS = {"C17-R1": 20, "C17-R2": 3, "C17-R3": 8, "C17-R4": 20, "C17-R5": 12, "C17-R6": 4, "C17-R7": 19, "C17-R8": 20}
 
 UC = "mdtraj/utils/unitcell.py"
 TRAJ = "mdtraj/core/trajectory.py"
@@ -195,6 +195,8 @@ def check(ctx):
                          ("self._unitcell_lengths=np.vstack((a,b,c)).T", "lengths = (a,b,c)"), ("self._unitcell_angles=np.vstack((alpha,beta,gamma)).T", "angles = (alpha,beta,gamma)")):
         ctx.decide(needle in txt, "C17-R3", s, TRAJ, "Trajectory.unitcell_vectors.setter", what, "", "setter no longer contains `%s`" % needle)
 
+    ctx.rule("C17-R8", "wherever cell lengths and cell angles are passed together they are read from the same object")
+    r8_cell_fields_travel_together(ctx)
     # ------------------------------------------------------------------ R4
     _r4(ctx)
 
@@ -531,3 +533,52 @@ def _same_value(p1, p2, v1, v2, squared=False):
         a, b = p1.reduce(a * a), p2.reduce(b * b)
         # replace sin^2 in both
     return repr(a.n * b.d) == repr(b.n * a.d) or (a.n * b.d) == (b.n * a.d)
+
+
+# ---------------------------------------------------------------------------------------------------
+def r8_cell_fields_travel_together(ctx):
+    """Lengths and angles describe one cell only when they come from the same object: at every call that passes both
+    (`unitcell_lengths=`/`unitcell_angles=` or `cell_lengths=`/`cell_angles=`) the two arguments, with single-definition locals expanded,
+    are read from the same base object(s) (`self.unitcell_lengths` with `self.unitcell_angles`, a local pair `unitcell_*`, ...)."""
+    def bases(fn, e, word, defs, seen=()):
+        """base objects from which an attribute / local whose name contains `word` is read, through every reaching local definition"""
+        out = set()
+        for n in ast.walk(e):
+            if isinstance(n, ast.Attribute) and word in n.attr:
+                out.add(src(n.value))
+            elif isinstance(n, ast.Name) and isinstance(n.ctx, ast.Load):
+                ds = defs.get(n.id)
+                if ds and n.id not in seen:
+                    for d in ds:
+                        if d is None:
+                            if word in n.id:
+                                out.add("<local %s>" % n.id.replace(word, "*"))
+                        else:
+                            sub = bases(fn, d, word, defs, seen + (n.id,))
+                            out |= sub if sub or word not in n.id else {"<local %s>" % n.id.replace(word, "*")}
+                elif word in n.id:
+                    out.add("<local %s>" % n.id.replace(word, "*"))
+        return out
+    n_sites = 0
+    for rel in (TRAJ, "mdtraj/formats/netcdf.py", "mdtraj/formats/amberrst.py", "mdtraj/formats/pdbx.py", "mdtraj/formats/hdf5.py", "mdtraj/formats/pdb/pdbfile.py"):
+        m = ctx.py.mod(rel)
+        ctx.analysed_files.add(rel)
+        seen = set()
+        for q, fn in sorted(m.functions.items()):
+            if id(fn) in seen:
+                continue
+            seen.add(id(fn))
+            for n in walk_no_nested(fn):
+                if not isinstance(n, ast.Call):
+                    continue
+                kw = {k.arg: k.value for k in n.keywords if k.arg}
+                for a, b in (("unitcell_lengths", "unitcell_angles"), ("cell_lengths", "cell_angles")):
+                    if a in kw and b in kw:
+                        n_sites += 1
+                        defs = local_defs(fn)
+                        ba, bb = bases(fn, kw[a], "lengths", defs), bases(fn, kw[b], "angles", defs)
+                        ctx.decide(ba == bb, "C17-R8", n, rel, q, "%s and %s come from the same object %s" % (a, b, sorted(ba) or "(computed)"), "",
+                                   "%s is read from %s but %s from %s: the result carries the edge lengths of one cell with the angles of another (or lengths without angles)"
+                                   % (a, sorted(ba), b, sorted(bb)))
+    if n_sites < 20:
+        raise AnalysisError("only %d call sites pass a lengths/angles pair (24 confirmed by hand)" % n_sites)
